@@ -333,3 +333,58 @@ def compare_with_instances(ctx):
                      "message": f"{len(where)} shipped field(s) (e.g. {where[0]}) have a default of shape {sh} that the current "
                                 f"generator cannot print"})
     return rows
+
+
+def dataclass_field_invariants(ctx):
+    """G8: format_dataclass_field over its finite decision grid.  What the message-definition README says
+    about a field's default does not depend on tagging or ignorability: an explicit default is emitted as
+    given; the metadata names the kafka type and carries the tag iff the field is tagged in that version."""
+    I = ctx.interp
+    gs = _mod(ctx, "codegen.generate_schema")
+    fdf, fd = gs.env.vars.get("format_dataclass_field"), gs.env.vars.get("format_default")
+    if not isinstance(fdf, FuncV) or not isinstance(fd, FuncV):
+        raise AnalysisError("anchor vanished: codegen.generate_schema.format_dataclass_field / format_default")
+    P, members = primitive_members(ctx)
+    sample = {"bool_": "true", "string": "abc", "float64": "1.5", "error_code": "3", "timedelta_i32": "500", "timedelta_i64": "500",
+              "datetime_i64": "-1"}
+    rows = []
+    for m in members:
+        d = sample.get(m.name, "7")
+        if m.name in ("bytes_", "uuid", "records"):
+            continue
+        optional = m.name == "datetime_i64"
+        try:
+            want_default = I.call(fd, [m, d, optional, None], {}, Run(), None)
+        except Raised:
+            continue
+        for tag in (None, 3):
+            for ignorable in (False, True):
+                case = f"Primitive.{m.name} default={d!r} tag={tag} ignorable={ignorable}"
+                try:
+                    out = I.call(fdf, [], {"field_type": m, "default": d, "optional": optional, "custom_type": None, "tag": tag,
+                                           "ignorable": ignorable}, Run(), None)
+                except Raised as r:
+                    rows.append({"ok": False, "case": case, "message": f"raises {short_exc(r.cls)}", "line": fdf.node.lineno})
+                    continue
+                except Limit as e:
+                    raise AnalysisError(f"format_dataclass_field not understood: {e}")
+                problems = []
+                if not isinstance(out, str):
+                    raise AnalysisError(f"format_dataclass_field({case}) is not evaluated to a constant string: {out!r}")
+                try:
+                    st = ast.parse(f"x: T{out}").body[0]
+                    call = st.value
+                    kws = {k.arg: k.value for k in call.keywords} if isinstance(call, ast.Call) else {}
+                except SyntaxError:
+                    rows.append({"ok": False, "case": case, "message": f"emits {out!r}, which is not a field(...) assignment", "line": fdf.node.lineno})
+                    continue
+                got_default = ast.unparse(kws["default"]) if "default" in kws else None
+                if got_default != ast.unparse(ast.parse(want_default, mode="eval").body):
+                    problems.append(f"explicit default {d!r} is emitted as default={got_default}, expected default={want_default}")
+                md = ast.literal_eval(kws["metadata"]) if "metadata" in kws else {}
+                if md.get("kafka_type") != m.value:
+                    problems.append(f"metadata kafka_type is {md.get('kafka_type')!r}, expected {m.value!r}")
+                if ("tag" in md) != (tag is not None) or (tag is not None and md.get("tag") != tag):
+                    problems.append(f"metadata tag is {md.get('tag')!r} for tag={tag}")
+                rows.append({"ok": not problems, "case": case, "message": "; ".join(problems), "line": fdf.node.lineno})
+    return rows
